@@ -260,6 +260,22 @@ def run(ctx):
             if d.get(k):
                 return ("ets-clear-" + k.lower(), "%s: %s (%d)" % (d0, m_, d[k]))
         return None
+    pcases = [[ctx.seed * 100 + 50 + i, N, how] for i, (N, how) in enumerate([(2, 0), (4, 1), (8, 0), (1, 2), (2, 2), (3, 1), (4, 0), (8, 1), (4, 2)] * ctx.scale(1, 3))]
+    ctx.rules.append("ets-copy (oracle only): a container holding the elements of N = 1..8 threads is copied (copy construction / copy assignment / combinable copy), then N + 3 further live threads access the copy one "
+                     "after the other: each gets its own element within 4 s, size() / combine count them, and no array of the copy's table is filled above one half (white box)")
+
+    def copy_oracle(c, toks):
+        d0 = "enumerable_thread_specific / combinable holding %d threads' elements, copied by %s, then %d further threads access the copy" % (c[1], ["copy construction", "copy assignment", "combinable's copy constructor"][c[2]], c[1] + 3)
+        if not toks or toks[0].startswith("CRASH") or toks[-1] == "HANG":
+            return ("ets-copy-hang-or-crash", d0)
+        d = {toks[i]: int(toks[i + 1]) for i in range(0, len(toks) - 1, 2)}
+        msg = {"STUCK": "a thread's local() on the copy did not return within 4 s (its probe finds neither its key nor an empty slot)", "SHARED": "two threads share one element",
+               "SIZE": "size() / combine do not count one element per thread", "DENSE": "an array of the copy's table is filled above one half"}
+        for k, m_ in msg.items():
+            if d.get(k):
+                return ("ets-copy-" + k.lower(), "%s: %s (%d)" % (d0, m_, d[k]))
+        return None
+    oracle_tie(ctx, "ets-copy", exe, ["etscopy"], pcases, copy_oracle, bucket=lambda c: "ets-copy how=%d" % c[2], timeout=600)
     oracle_tie(ctx, "ets-clear", exe, ["etsclear"], ccases, clear_oracle, bucket=lambda c: "ets-clear how=%d" % c[3], timeout=300)
 
 
